@@ -4,7 +4,7 @@ import DarkluaModel.Shared.VisitorSound.StateRel
 # State operations and `SRel`
 -/
 namespace DarkluaModel.Sem.Heap
-variable {N : NumOps} {Q : QRel} {β : CellRel}
+variable {N : NumOps} {Q : QRel} {cx : Cx} {β : CellRel}
 
 theorem length_listSet {α : Type} (l : List α) (i : Nat) (a : α) : (listSet l i a).length = l.length := by
   induction l generalizing i with
@@ -34,7 +34,7 @@ theorem le_extBoth {σ σ' : State N} : β.le (extBoth β σ σ') := fun _ _ hab
 theorem extBoth_new {σ σ' : State N} : extBoth β σ σ' σ.cells.length σ'.cells.length := .inr ⟨rfl, rfl⟩
 
 section
-variable {σ σ' : State N} (h : SRel Q β σ σ')
+variable {σ σ' : State N} (h : SRel Q cx β σ σ')
 include h
 
 theorem SRel.getTable (i : Nat) : σ'.getTable i = σ.getTable i := by simp only [State.getTable, h.tables]
@@ -90,32 +90,32 @@ theorem SRel.closure_get (i : Nat) : OptRel (CRel Q β) σ.closures[i]? σ'.clos
 
 /-! ### updates that do not touch cells -/
 
-theorem SRel.setTable (i : Nat) (t : Table N) : SRel Q β (σ.setTable i t) (σ'.setTable i t) :=
+theorem SRel.setTable (i : Nat) (t : Table N) : SRel Q cx β (σ.setTable i t) (σ'.setTable i t) :=
   { h with tables := by simp only [State.setTable, h.tables] }
 theorem SRel.allocTable (t : Table N) :
-    (σ'.allocTable t).1 = (σ.allocTable t).1 ∧ SRel Q β (σ.allocTable t).2 (σ'.allocTable t).2 :=
+    (σ'.allocTable t).1 = (σ.allocTable t).1 ∧ SRel Q cx β (σ.allocTable t).2 (σ'.allocTable t).2 :=
   ⟨by simp only [State.allocTable, h.tables], { h with tables := by simp only [State.allocTable, h.tables] }⟩
-theorem SRel.setGlobal (n : String) (v : Val N) : SRel Q β (σ.setGlobal n v) (σ'.setGlobal n v) :=
+theorem SRel.setGlobal (n : String) (v : Val N) : SRel Q cx β (σ.setGlobal n v) (σ'.setGlobal n v) :=
   { h with globals := by simp only [State.setGlobal, h.globals] }
-theorem SRel.rawSet (t : Nat) (k v : Val N) : SRel Q β (σ.rawSet t k v) (σ'.rawSet t k v) := by
+theorem SRel.rawSet (t : Nat) (k v : Val N) : SRel Q cx β (σ.rawSet t k v) (σ'.rawSet t k v) := by
   simp only [State.rawSet, h.getTable]; exact h.setTable _ _
 theorem SRel.pushTrace (e : Event) :
-    SRel Q β { σ with trace := e :: σ.trace } { σ' with trace := e :: σ'.trace } :=
+    SRel Q cx β { σ with trace := e :: σ.trace } { σ' with trace := e :: σ'.trace } :=
   { h with trace := by simp only [h.trace] }
 theorem SRel.setMany (t : Nat) (i : Nat) (vs : List (Val N)) :
-    SRel Q β (Sem.setMany t i vs σ) (Sem.setMany t i vs σ') := by
+    SRel Q cx β (Sem.setMany t i vs σ) (Sem.setMany t i vs σ') := by
   induction vs generalizing i σ σ' with
   | nil => exact h
   | cons v vs ih => simp only [Sem.setMany]; exact ih (h.rawSet _ _ _) _
 
 theorem SRel.allocClosure {c c' : Closure N} (hc : CRel Q β c c') :
-    (σ'.allocClosure c').1 = (σ.allocClosure c).1 ∧ SRel Q β (σ.allocClosure c).2 (σ'.allocClosure c').2 :=
+    (σ'.allocClosure c').1 = (σ.allocClosure c).1 ∧ SRel Q cx β (σ.allocClosure c).2 (σ'.allocClosure c').2 :=
   ⟨by simp only [State.allocClosure, h.closure_length],
    { h with closures := forall2_snoc h.closures hc }⟩
 
 /-! ### cells -/
 
-theorem SRel.setCell {a b : Nat} (hab : β a b) (v : Val N) : SRel Q β (σ.setCell a v) (σ'.setCell b v) where
+theorem SRel.setCell {a b : Nat} (hab : β a b) (v : Val N) : SRel Q cx β (σ.setCell a v) (σ'.setCell b v) where
   globals := h.globals
   tables := h.tables
   trace := h.trace
@@ -137,7 +137,7 @@ theorem SRel.setCell {a b : Nat} (hab : β a b) (v : Val N) : SRel Q β (σ.setC
   closures := h.closures
 
 theorem SRel.assignVar {D : List String} {env env' : Env N} (he : EnvRel β D env.locals env'.locals)
-    {n : String} (hn : n ∉ D) (v : Val N) : SRel Q β (Sem.assignVar env n v σ) (Sem.assignVar env' n v σ') := by
+    {n : String} (hn : n ∉ D) (v : Val N) : SRel Q cx β (Sem.assignVar env n v σ) (Sem.assignVar env' n v σ') := by
   have := he n hn
   simp only [Sem.assignVar]
   cases h1 : lookupAssoc n env.locals <;> cases h2 : lookupAssoc n env'.locals <;> rw [h1, h2] at this <;>
@@ -145,7 +145,7 @@ theorem SRel.assignVar {D : List String} {env env' : Env N} (he : EnvRel β D en
   · exact h.setGlobal n v
   · exact h.setCell this v
 
-theorem SRel.allocBoth (v : Val N) : SRel Q (extBoth β σ σ') (σ.allocCell v).2 (σ'.allocCell v).2 where
+theorem SRel.allocBoth (v : Val N) : SRel Q cx (extBoth β σ σ') (σ.allocCell v).2 (σ'.allocCell v).2 where
   globals := h.globals
   tables := h.tables
   trace := h.trace
@@ -169,7 +169,7 @@ theorem SRel.allocBoth (v : Val N) : SRel Q (extBoth β σ σ') (σ.allocCell v)
     · simp
   closures := Forall2.imp (fun _ _ hc => hc.mono le_extBoth) h.closures
 
-theorem SRel.allocLeft (v : Val N) : SRel Q β (σ.allocCell v).2 σ' where
+theorem SRel.allocLeft (v : Val N) : SRel Q cx β (σ.allocCell v).2 σ' where
   globals := h.globals
   tables := h.tables
   trace := h.trace
@@ -183,7 +183,7 @@ theorem SRel.allocLeft (v : Val N) : SRel Q β (σ.allocCell v).2 σ' where
     exact h.cell h1
   closures := h.closures
 
-theorem SRel.allocRight (v : Val N) : SRel Q β σ (σ'.allocCell v).2 where
+theorem SRel.allocRight (v : Val N) : SRel Q cx β σ (σ'.allocCell v).2 where
   globals := h.globals
   tables := h.tables
   trace := h.trace
@@ -199,9 +199,9 @@ theorem SRel.allocRight (v : Val N) : SRel Q β σ (σ'.allocCell v).2 where
 end
 
 /-- `bindLocals` on both sides: the fresh cells are paired up -/
-theorem SRel.bindLocals {σ σ' : State N} (h : SRel Q β σ σ') {D : List String} (ns : List String)
+theorem SRel.bindLocals {σ σ' : State N} (h : SRel Q cx β σ σ') {D : List String} (ns : List String)
     (vs : List (Val N)) {l l' : List (String × Nat)} (he : EnvRel β D l l') :
-    ∃ β', β.le β' ∧ SRel Q β' (Sem.bindLocals ns vs l σ).2 (Sem.bindLocals ns vs l' σ').2 ∧
+    ∃ β', β.le β' ∧ SRel Q cx β' (Sem.bindLocals ns vs l σ).2 (Sem.bindLocals ns vs l' σ').2 ∧
       EnvRel β' D (Sem.bindLocals ns vs l σ).1 (Sem.bindLocals ns vs l' σ').1 := by
   induction ns generalizing vs l l' σ σ' β with
   | nil => exact ⟨β, β.le_refl, h, he⟩
